@@ -318,6 +318,16 @@ impl Prop for C03 {
             ensure!(s2 == seq, "Dijkstra: sources passed through `filter` give {s2:?}, passed directly {seq:?}");
             let i2: Vec<(usize, usize)> = DijkstraDist::new(&g, lazy()).collect();
             ensure!(i2 == items, "DijkstraDist: sources passed through `filter` give {i2:?}, passed directly {items:?}");
+            // and through a draining iterator whose clones share one cursor
+            let q = gen::shared_queue(&c.sources);
+            let s4: Vec<usize> = Dijkstra::new(&g, gen::shared_cursor(&q)).collect();
+            ensure!(s4 == seq, "Dijkstra: sources from a draining iterator whose clones share their cursor give {s4:?}, passed directly {seq:?}");
+            let q = gen::shared_queue(&c.sources);
+            let i4: Vec<(usize, usize)> = DijkstraDist::new(&g, gen::shared_cursor(&q)).collect();
+            ensure!(i4 == items, "DijkstraDist: sources from a draining iterator whose clones share their cursor give {i4:?}, passed directly {items:?}");
+            let q = gen::shared_queue(&c.sources);
+            let d4 = DijkstraDist::new(&g, gen::shared_cursor(&q)).distances();
+            ensure!(d4 == got, "DijkstraDist::distances(): sources from a draining iterator whose clones share their cursor give {d4:?}, passed directly {got:?}");
             // and through an iterator reporting another honest hint shape
             let h = gen::hint_pick(c.sources.len(), n + c.g.arcs.len());
             let s3: Vec<usize> = Dijkstra::new(&g, gen::hinted(c.sources.clone(), h)).collect();
